@@ -191,3 +191,57 @@ def closest_element(n: int, a: float, b: float, c: float, v: float) -> bool:
     ok = ok and abs(got - v) <= abs(x - v)
   reach('closest')
   return finish(ok, (n, a, b, c, v))
+
+
+# ---- grid over DOUBLE axes and default/centre seeding (native numpy; configuration chosen by the solver) ---------
+_DBL_BOUNDS = [(0.0, 1.0), (0.3, 0.9), (0.01, 0.1), (-1.0, 0.3), (1e160, 1e170), (1e-200, 1e-150), (5.0, 5.0)]
+
+
+def grid_double_members(b: int, i: int) -> bool:
+  """
+  pre: 0 <= b <= 6 and 0 <= i
+  post: _
+  """
+  b = conc(b, 0, 6)
+  with NoTracing():
+    from vizier._src.algorithms.designers import grid
+    lo, hi = _DBL_BOUNDS[b]
+    space = vz.SearchSpace()
+    space.root.add_float_param('x', lo, hi)
+    space.root.add_categorical_param('c', ['p', 'q'])
+    d = grid.GridSearchDesigner(space)
+    n = 10 if lo < hi else 1
+  d._current_index = i
+  try:
+    s = d.suggest(1)[0]
+  except (TypeError, ValueError):
+    reach('grid_double_refused')       # a configuration the algorithm cannot handle is refused with an error: allowed
+    return finish(True, (b, i))
+  with NoTracing():
+    v = s.parameters.as_dict()['x']
+    ok = lo <= v <= hi and space.contains(s.parameters)
+  reach('grid_double')
+  return finish(ok, (b, i))
+
+
+def default_seed_in_space(b: int, scale: int, has_default: bool, ilo: int, width: int) -> bool:
+  """
+  pre: 0 <= b <= 6 and 0 <= scale <= 2 and 0 <= width <= 3
+  post: _
+  """
+  b, scale, has_default, width = conc(b, 0, 6), conc(scale, 0, 2), True if has_default else False, conc(width, 0, 3)
+  with NoTracing():
+    from vizier._src.pythia import suggest_default
+    lo, hi = _DBL_BOUNDS[b]
+    if scale and lo <= 0:
+      return True
+    st = [vz.ScaleType.LINEAR, vz.ScaleType.LOG, vz.ScaleType.REVERSE_LOG][scale]
+    space = vz.SearchSpace()
+    space.root.add_float_param('x', lo, hi, scale_type=st, default_value=lo if has_default else None)
+    space.root.add_discrete_param('d', [1.0, 2.0, 4.0, 8.0][:width + 1])
+    space.root.add_categorical_param('c', ['p', 'q', 'r'][:max(1, width)])
+  space.add(vz.ParameterConfig.factory('i', bounds=(ilo, ilo + width)))
+  params = suggest_default.get_default_parameters(space)
+  ok = space.contains(params) and sorted(params.as_dict().keys()) == ['c', 'd', 'i', 'x']
+  reach('default_seed')
+  return finish(ok, (b, scale, has_default, ilo, width))
